@@ -4,10 +4,19 @@
    A case is a history of operations on ONE filter; for every value an event produced the harness reports which
    candidate (key, salt, info) reproduces it (independent decryption / recomputation), whether the decrypted bytes are
    the original ones, and the raw blob / mac together with the framed text. *)
-From Coq Require Import List Bool NArith.
+From Coq Require Import List Bool NArith String Ascii.
 From Verif Require Import Base64 Crypto.
 Import ListNotations.
 Open Scope list_scope.
+
+(* byte strings of the observations are written as hexadecimal text (cheap to parse) *)
+Definition hexval (a : ascii) : N :=
+  let n := N_of_ascii a in if N.leb 97 n then (n - 87)%N else (n - 48)%N.
+Fixpoint unhex (s : string) : bstr :=
+  match s with
+  | String a (String b r) => (hexval a * 16 + hexval b)%N :: unhex r
+  | _ => []
+  end.
 
 Inductive vobs :=
 | VEnc (kid : N) (roundtrip : bool) (blob framed : bstr)       (* the key that decrypts; plaintext = original; marshalled blob; text *)
@@ -45,10 +54,13 @@ Definition check_value (t : N * bstr * bstr) (c : cop) (o : vobs) : list kind :=
   match t, c, o with
   | (w, _, _), CEnc _, VEnc kid rt blob framed =>
       (if N.eqb kid w then [] else [CKTriple]) ++ (if rt then [] else [CKRoundTrip]) ++
-      (if bstr_eqb (frame_enc blob) framed && match unframe_enc framed with Some b => bstr_eqb b blob | None => false end then [] else [CKFrame])
+      (match framed with
+       | [] => []                                        (* the harness did not ship the bytes of this value *)
+       | _ => if bstr_eqb (frame_enc blob) framed && match unframe_enc framed with Some b => bstr_eqb b blob | None => false end then [] else [CKFrame]
+       end)
   | (w, s, i), CHmac, VHmac kid sid iid _ mac framed =>
       (if N.eqb kid w && bstr_eqb sid s && bstr_eqb iid i then [] else [CKTriple]) ++
-      (if bstr_eqb (frame_hmac mac) framed then [] else [CKHmac])
+      (match framed with [] => [] | _ => if bstr_eqb (frame_hmac mac) framed then [] else [CKHmac] end)
   | _, _, _ => [CKTriple]
   end.
 
